@@ -304,6 +304,8 @@ func c07Mutate(seed []byte, c c07Case) ([]byte, bool) {
 		return nil, false
 	}
 	if c.CRLF {
+		// (a seed that already uses CRLF, like pBAT5.txt, stays as it is)
+		data = bytes.ReplaceAll(data, []byte("\r\n"), []byte("\n"))
 		data = bytes.ReplaceAll(data, []byte("\n"), []byte("\r\n"))
 	}
 	return data, true
